@@ -271,12 +271,16 @@ def r15d(model, ctx):
     ok = "if flag.value & flag.value - 1 == 0:\n                singles_mask |= flag.value" in t and "~self.as_value() & singles_mask" in t
     ctx.check(ok, R, "FlagView.__invert__", "complement within the mask of single-bit flags (STRICT/CONFORM boundary)",
               "~flags must be masked with the or of all single-bit flag values unless the boundary is EJECT/KEEP", f"{E}:{fi.lineno}")
-    f = model.func(f"{E}::EnumType.const")
-    ok = any(isinstance(s, ast.Return) and unparse(s.value) == "cls(Const(member.value, cls.as_shape()))" for s in f.body) and \
-        "member = cls(0)" in unparse(f) and "member = cls(init)" in unparse(f)
-    ctx.check(ok, R, "EnumType.const", "cls(Const(member.value, cls.as_shape())), default member value 0",
-              "a shaped enum constant must be cls(Const(member.value, cls.as_shape())) with None meaning the member with value 0",
-              f"{E}:{f.lineno}")
+    from ..engine import refsem as _rs
+    f, paths = _rs.method_paths(model, f"{E}::EnumType.const", inline=False)
+    _rs.compare(ctx, R, "EnumType.const", f"{E}:{f.lineno}", "EnumType.const", paths, ["""
+if init is None:
+    member = cls(0)
+else:
+    member = cls(init)
+return cls(Const(member.value, cls.as_shape()))
+"""], fact="cls(Const(member.value, cls.as_shape())), default member value 0",
+                why="a shaped enum constant must be cls(Const(member.value, cls.as_shape())) with None meaning the member with value 0")
     f = model.func(f"{E}::EnumType.from_bits")
     ok = any(isinstance(s, ast.Return) and unparse(s.value) == "cls(bits)" for s in f.body)
     ctx.check(ok, R, "EnumType.from_bits", "cls(bits)", "from_bits must look the member up by value: cls(bits)", f"{E}:{f.lineno}")
